@@ -197,9 +197,9 @@ func cmdVerify(args []string) int {
 		defer os.RemoveAll(dir)
 	}
 	os.MkdirAll(dir, 0o755)
-	timeout := 20 * time.Second
+	timeout := 45 * time.Second
 	if *tier == "thorough" {
-		timeout = 120 * time.Second
+		timeout = 180 * time.Second
 	}
 	known, fixed := readKnown(*knownPath)
 	_ = fixed
